@@ -10,7 +10,8 @@ Next ==
     \/ /\ tid <= N
        /\ LET c == Trace[tid]
               want == Eq(c.x, c.y)
-              bad == IF c.eq # want THEN "eq" ELSE IF c.ne # ~want THEN "ne"
+              bad == IF c.what \in {"copy", "deepcopy", "self"} /\ (~c.eq \/ c.x # c.y) THEN "copy_equal"   \* a copy has the content of its original
+                     ELSE IF c.eq # want THEN "eq" ELSE IF c.ne # ~want THEN "ne"
                      ELSE IF c.eq_rev # want THEN "eq_symmetric" ELSE ""
           IN IF bad = "" THEN TRUE
              ELSE PrintT(ToJson([reject |-> c.id, at |-> 1, clause |-> bad, expected |-> [eq |-> want]]))
